@@ -90,7 +90,9 @@ BOUNDS = {
 
 DEFAULT_SW = (True, True)
 FORMATS = ["mesh", "obj", "off", "tet", "xyz", "geogram_ascii"]
-VARIANTS = [("inst", "list"), ("ctor", "list"), ("inst", "tuple"), ("inst", "numpy"), ("arrays", "numpy"),
+# "inst_peek": like "inst", but the public raw.dimensionality property is read while the data is being assembled (after
+# the vertices and again after the edges): a lazily cached value must not survive later additions
+VARIANTS = [("inst", "list"), ("ctor", "list"), ("inst_peek", "list"), ("inst", "tuple"), ("inst", "numpy"), ("arrays", "numpy"),
             ("arrays2d", "numpy")] + [("file:" + f, "list") for f in FORMATS] + [("saveload:" + f, "list") for f in FORMATS]
 
 
@@ -164,13 +166,17 @@ def _rows(data, rows, dtype):
     return [np.array(r, dtype=dtype) for r in data]
 
 
-def make_raw(M, inp, rows):
+def make_raw(M, inp, rows, peek=False):
     from mouette.mesh.data_container import CornerDataContainer
     pts = L.CUBE_PTS if inp["pts"] == "CUBE" else L.G_PTS
     r = M.mesh.RawMeshData()
     V = [[float(c) for c in pts[i]] for i in range(inp["nv"])]
     r.vertices += _rows(V, rows, float)
+    if peek:
+        r.dimensionality
     r.edges += _rows(inp["E"], rows, int)
+    if peek:
+        r.dimensionality
     r.faces += _rows(inp["F"], rows, int)
     r.cells += _rows(inp["C"], rows, int)
     mode = inp["attr"]
@@ -207,6 +213,8 @@ def build(M, inp, entry, rows, tmp, wantcls):
         with Switches(M, inp["cE"], inp["cF"]):
             if entry == "inst":
                 return Built(_instanciate_raw_mesh_data(make_raw(M, inp, rows)))
+            if entry == "inst_peek":
+                return Built(_instanciate_raw_mesh_data(make_raw(M, inp, rows, peek=True)))
             if entry == "ctor":
                 return Built(getattr(M.mesh, wantcls)(make_raw(M, inp, rows)))
             if entry in ("arrays", "arrays2d"):
@@ -414,7 +422,7 @@ def evaluate(M, inp, entry, rows, tmp, rep):
     return devs, o
 
 
-CALLEE = {"inst": "RawMeshData.prepare", "ctor": "Mesh.__init__", "arrays": "from_arrays", "arrays2d": "from_arrays"}
+CALLEE = {"inst": "RawMeshData.prepare", "inst_peek": "RawMeshData.prepare", "ctor": "Mesh.__init__", "arrays": "from_arrays", "arrays2d": "from_arrays"}
 
 
 def report(rep, devs, inp, entry, rows, baseline_keys, seen_local):
@@ -484,7 +492,7 @@ def inputs_of(task):
 def variant_applies(entry, rows, inp, tier):
     F, C, E = inp["F"], inp["C"], inp["E"]
     plain = inp["attr"] == "none" and inp["prefill"] == "absent"
-    if entry in ("ctor", "inst"):
+    if entry in ("ctor", "inst", "inst_peek"):
         if inp["nv"] > L.nv_needed(F, C) > 0:
             return False                               # the extra isolated vertex only for the baseline
         return True
